@@ -195,7 +195,7 @@ class C08(Check):
             'mutations for JER/XER) x 7 decoding codecs; oracle: decode returns or raises within a deterministic work '
             'budget (call-event count <= 50 x the largest events-per-(len+64)(|T|+1) seen on valid decodes, floor 20000), '
             'tracemalloc peak within 8 MiB + proportional budget on a sample, and the SAME compiled object still decodes a '
-            'valid encoding to the expected value afterwards; evaluation = one mutated decode; non-trivial = input differs '
+            'valid encoding to the expected value afterwards, also after 30 (recursive types: 300) repetitions of all malformed inputs of the type; evaluation = one mutated decode; non-trivial = input differs '
             'from every valid encoding and is non-empty; distinct = hash(type, codec, input)')
     assumptions = ['work is measured in interpreter call events (sys.setprofile), independent of machine speed; a loop '
                    'inside a C extension without events is only caught by the 20 s watchdog',
@@ -294,6 +294,33 @@ class C08(Check):
                         continue
                     if data and all(data != v_[0] for v_ in valid):
                         rec.nt(name, codec, data.hex())
+                # stress: state that a failing decode leaves behind may only show after many of them (a counter that
+                # is not restored, a cache that fills up): repeat every mutated input of this type on the same
+                # compiled object, then the sentinel once more
+                burst = []
+                for k, ms in enumerate(muts):
+                    base = valid[k % len(valid)][0]
+                    burst.append(mutate_tlv(base, ms, other) if (codec in ('ber', 'der') and k % 3 == 2) else
+                                 (mutate_text if textual else mutate)(base, ms, other))
+                rounds = 300 if 'recursive' in common.type_features(spec, ty, modname) else 30
+                try:
+                    with watchdog(120):
+                        for _ in range(rounds):
+                            for d_ in burst:
+                                if len(d_) <= 512:
+                                    outcome(c.decode, name, d_)
+                        s = outcome(c.decode, name, sentinel)
+                except CaseHang:
+                    s = ('hang',)
+                rec.ev()
+                if s[0] != 'ok' or repr(s[1]) != repr(expected):
+                    rec.fail(Failure('state-corrupted', 'after %d rounds of %d malformed inputs the same object decodes the '
+                                     'valid input %s to %s instead of %s' % (rounds, len(burst), sentinel.hex()[:60],
+                                                                           str(s[1:])[:100], repr(expected)[:100]),
+                                     common.mk_case(spec, modname, name, vals[0], codec=codec, input=burst[0].hex(),
+                                                    valid=sentinel.hex(), budget=10 ** 9,
+                                                    burst=[b_.hex() for b_ in burst], rounds=rounds), feats))
+                    continue
                 if len(rec.samples) < 2:
                     rec.sample({'codec': codec, 'type': name, 'module_text': spec.text(),
                                 'valid': sentinel.hex()[:100], 'mutated_example': data.hex()[:100]})
@@ -380,6 +407,10 @@ class C08(Check):
         data = bytes.fromhex(case['input'])
         sentinel = bytes.fromhex(case['valid'])
         expected = outcome(asn1tools.compile_string(spec.text(), codec).decode, name, sentinel)
+        if case.get('burst'):
+            for _ in range(case.get('rounds', 30)):
+                for hx in case['burst']:
+                    outcome(c.decode, name, bytes.fromhex(hx))
         try:
             with watchdog(20):
                 r = metered(lambda: c.decode(name, data), case['budget'])
